@@ -251,7 +251,7 @@ func (rl *Shell) viForwardChar() {
 	if rl.Keymap.Main() != keymap.ViInsert && rl.cursor.Pos() < rl.line.Len()-1 {
 		vii := rl.Iterations.Get()
 
-		for i := 1; i <= vii; i++ {
+		for i := 1; i <= vii && rl.cursor.Pos() < rl.line.Len()-1; i++ {
 			if (*rl.line)[rl.cursor.Pos()+1] == '\n' {
 				break
 			}
